@@ -55,11 +55,14 @@ def run(patch, props):
         shutil.rmtree(backup)
     return res
 
+MUT_ROOT = os.environ.get("MUT_ROOT", "/tmp/mut")
+
+
 def full(prop, k, props):
     """verify mutant k of property prop (agent output in /tmp/mut/<prop>.out), run checks, store under seeded/"""
     import json, shutil
-    src = f"/tmp/mut/{prop}.out"
-    v = verify(f"/tmp/mut/{prop}", f"{src}/patch{k}.diff", f"{src}/demo{k}.rs")
+    src = f"{MUT_ROOT}/{prop}.out"
+    v = verify(f"{MUT_ROOT}/{prop}", f"{src}/patch{k}.diff", f"{src}/demo{k}.rs")
     print("verify:", v["ok"], v["suite_with_patch"][:60], "| demo with patch passes:", v["demo_with_patch_passes"], "| without:", v["demo_without_patch_passes"])
     if not v["ok"]:
         print("NOT KEPT"); return
@@ -71,7 +74,7 @@ def full(prop, k, props):
     open(f"{d}/notes.md", "w").write(notes)
     meta = {"property": prop, "mutant": k, "origin": "independent sub-agent given only the property text and a scratch worktree",
             "needs_to_manifest": "see notes.md (section for mutant %s)" % k,
-            "confirmed": {"how": "seedtest.py verify in scratch worktree /tmp/mut/%s: cargo test --offline --lib with patch; cargo test --offline --test demo with and without patch" % prop, **v},
+            "confirmed": {"how": "seedtest.py verify in scratch worktree %s/%s: cargo test --offline --lib with patch; cargo test --offline --test demo with and without patch" % (MUT_ROOT, prop), **v},
             "checks_run": {p: {"exit": rc, "lines": lines} for p, (rc, lines) in res.items()},
             "detected": any(rc == 1 for rc, _ in res.values())}
     json.dump(meta, open(f"{d}/meta.json", "w"), indent=1)
